@@ -5,7 +5,7 @@ import json, os, shutil, sys, re
 src, suffix = sys.argv[1], sys.argv[2]
 summ = json.load(open('/verif/tools/seed_summaries.json'))
 results = {}
-for f in ['/tmp/seed/results.txt', '/tmp/seed/results.r2.txt', '/tmp/seed/results.r3.txt', '/tmp/seed/results.r4.txt', '/tmp/seed/results.r5.txt']:
+for f in ['/tmp/seed/results.txt', '/tmp/seed/results.r2.txt', '/tmp/seed/results.r3.txt', '/tmp/seed/results.r4.txt', '/tmp/seed/results.r5.txt', '/tmp/seed/results.r6.txt']:
     if not os.path.exists(f): continue
     cur = None
     for l in open(f):
@@ -23,7 +23,7 @@ for n in range(1, 21):
             shutil.copy(f'{d}/{v}.patch.diff', f'{out}/patch.diff')
         shutil.copy(f'{d}/{v}.demo.diff', f'{out}/demo.diff')
         if os.path.exists(f'{d}/{v}.notes.md'): shutil.copy(f'{d}/{v}.notes.md', f'{out}/notes.md')
-        key = ({'': '/tmp/seed/results.txt', '-r2': '/tmp/seed/results.r2.txt', '-r3': '/tmp/seed/results.r3.txt', '-r4': '/tmp/seed/results.r4.txt', '-r5': '/tmp/seed/results.r5.txt'}[suffix], (f'{n:02d}', v))
+        key = ({'': '/tmp/seed/results.txt', '-r2': '/tmp/seed/results.r2.txt', '-r3': '/tmp/seed/results.r3.txt', '-r4': '/tmp/seed/results.r4.txt', '-r5': '/tmp/seed/results.r5.txt', '-r6': '/tmp/seed/results.r6.txt'}[suffix], (f'{n:02d}', v))
         meta = {
             'id': sid, 'property': f'C{n:02d}',
             'origin': 'written by an independent sub-agent that was given only the text of the property and a scratch worktree of the repository (nothing from /verif)',
